@@ -32,7 +32,7 @@ def run_one(mod, prop, item):
             res = {'status': 'ok', 'rejected': str(e), 'stats': {}, 'obligations': 1, 'discharged': 1}
         else:
             res = {'status': 'violation', 'violations': [{
-                'property': prop.upper(), 'key': 'raises|%s|%s' % (loc, item['cfg'].method if 'cfg' in item else ''),
+                'property': prop.upper(), 'key': 'raises|%s|%s|%s' % (loc, str(e).split('|', 1)[1].split(':')[0] if '|' in str(e) else '', item['cfg'].method if 'cfg' in item else ''),
                 'label': 'transcription raised', 'detail': 'real code raised on a well-posed specification: %s' % e,
                 'cfg': repr(item.get('cfg')), 'spec': repr(item.get('spec'))}]}
     except Unsupported as e:
